@@ -10,7 +10,8 @@ ID = "C03"
 LEVEL = "proof"
 LEVEL_TEXT = ("Theorems over the executable model of every unmarshaller (Props/C03.lean): whatever the input, an `ok` result of "
               "`um` conforms structurally to the annotation (class at every position, arity of fixed tuples, required TypedDict keys, "
-              "Literal/Enum membership) — no truncated or partially converted result. The model is tied to /repo by the per-run "
+              "Literal/Enum membership) — no truncated or partially converted result; a result is a fixed point of unmarshal "
+              "(`idempotent_core`: every enum included, str mix-in or not, since members pass through undecoded). The model is tied to /repo by the per-run "
               "correspondence on junk and systematically corrupted wire forms, and whatever the REAL unmarshal returns is judged by "
               "an independent structural checker written against `typing` only.")
 LEVEL_NOTE = ("Trusted: Lean kernel, axioms propext/Classical.choice/Quot.sound; hand-written model tied by correspondence; "
